@@ -1,4 +1,5 @@
 import TaffyVerif.Drv.C02
+import TaffyVerif.Drv.Hist
 import TaffyVerif.Drv.C09
 import TaffyVerif.Drv.EVAL
 import TaffyVerif.Drv.Pairs
@@ -15,6 +16,9 @@ import TaffyVerif.Drv.C15
 
 def handlers : List (String × Handler) := [
   ("C02", DrvC02.handler),
+  ("C01", DrvHist.handlerC01),
+  ("C16", DrvHist.handlerC16),
+  ("C17", DrvHist.handlerC17),
   ("C09", DrvC09.handler),
   ("EVAL", DrvEVAL.handler),
   ("C04", DrvC04.handler),
